@@ -301,6 +301,32 @@ def op_sites(F, body, pred, depth=3):
     return out
 
 
+def op_sites_callees(F, body, pred, depth=3):
+    """Like op_sites, with the callee paths of the operations found at each site: [(block of body, [callee path, ..])]."""
+    def performed(cb, d):
+        out = []
+        for bb, t in cb.calls():
+            cp = callee_path(t) or ''
+            if pred(cp, t):
+                out.append(cp)
+            elif d > 0:
+                for c in closure_args(F, cb, t):
+                    out += performed(c, d - 1)
+        return out
+    res = []
+    for bb, t in body.calls():
+        cp = callee_path(t) or ''
+        if pred(cp, t):
+            res.append((bb, [cp]))
+        else:
+            inner = []
+            for c in closure_args(F, body, t):
+                inner += performed(c, depth)
+            if inner:
+                res.append((bb, inner))
+    return res
+
+
 def frame_op(name):
     """Predicate: the Frame arithmetic-assignment operator `name` (add_assign, mul_assign ...)."""
     # `a += b` and `a = a + b` are the same operation on a Frame (the *Assign impls do what the binary operators do)
